@@ -4,11 +4,12 @@
 //!   c09 probe  <file.sy> [lua]                 compile one program from disk, print the observation
 //! Cases (emitted by TLC, MC_Scope):
 //!   {t:"nam", sk, tops, namings:[{nm:[int], names:[str]}]}   one skeleton, its legal namings (binder j -> names[j-1])
-//!   {t:"oos", sk, b, slot, tops, names:[str]}                one planted use of binder b at slot `slot`, all-distinct names
+//!   {t:"oos", sk, b, slot, form, tops, names:[str]}          one use of binder b planted at slot `slot` in position `form`
+//!   (a `{k:"module", name}` node in tops starts the file <name>.sy: two-file skeletons)
 //!   {t:"gen", rec, id, tops, shadow:[{b, n}]}                one program of SyltGen's universe and a shadowing naming
 //! Records (same order):
 //!   {t:"nam", sk, results:[{nm, class, digest, bytes, stage}], sources?}
-//!   {t:"oos", sk, b, slot, class, bytes, stage, detail, src}
+//!   {t:"oos", sk, b, slot, form, class, bytes, stage, detail, src}
 //!   {t:"gen", rec, id, shadow, distinct:{class, digest, ..}, shadowed:{class, digest, ..}, sources?}
 //! class ok|err|panic; bytes = bytes written to the output (0 expected on rejection); stage syntax|later|none.
 //! Rust only renders, compiles and records; legality, coverage and the verdicts are TLC's (Trace_Scope).
@@ -22,8 +23,8 @@ use vharness::printer::{print_program, PrintOpts};
 use vharness::util::*;
 use vharness::{CompileResult, Project};
 
-fn observe(src: &str) -> Value {
-    match vharness::compile(&Project::single(src)) {
+fn observe(p: &Project) -> Value {
+    match vharness::compile(p) {
         CompileResult::Ok { lua } => json!({"class": "ok", "digest": hex(fnv(&lua)), "bytes": lua.len(), "stage": "none", "detail": ""}),
         CompileResult::Err { errors, bytes_written } => {
             let stage = if errors.iter().any(|e| e.kind == "syntax") { "syntax" } else { "later" };
@@ -57,13 +58,29 @@ fn naming_from_pairs(pairs: &Value) -> BTreeMap<i64, String> {
         .collect()
 }
 
-fn render(tops: &Value, naming: BTreeMap<i64, String>) -> String {
+/// A `{k:"module", m, name}` node starts the next file (`<name>.sy`); everything before the first one is main.sy.
+fn render(tops: &Value, naming: BTreeMap<i64, String>) -> Project {
     let opts = PrintOpts { naming, ..Default::default() };
-    print_program(tops.as_array().expect("tops"), &opts)
+    let mut files: Vec<(String, Vec<Value>)> = vec![("main.sy".to_string(), Vec::new())];
+    for t in tops.as_array().expect("tops") {
+        if t["k"] == "module" {
+            files.push((format!("{}.sy", t["name"].as_str().expect("module name")), Vec::new()));
+        } else {
+            files.last_mut().unwrap().1.push(t.clone());
+        }
+    }
+    Project { files: files.into_iter().map(|(n, ts)| (n, print_program(&ts, &opts))).collect(), main: "main.sy".into() }
 }
 
-/// the source texts of a case: one per variant
-fn sources(c: &Value) -> Vec<String> {
+fn text_of(p: &Project) -> String {
+    if p.files.len() == 1 {
+        return p.files["main.sy"].clone();
+    }
+    p.files.iter().map(|(k, v)| format!("// ---- file {}\n{}", k, v)).collect::<Vec<_>>().join("\n")
+}
+
+/// the programs of a case: one per variant
+fn sources(c: &Value) -> Vec<Project> {
     match c["t"].as_str().unwrap_or("") {
         "nam" => c["namings"].as_array().expect("namings").iter().map(|n| render(&c["tops"], naming_from_names(&n["names"]))).collect(),
         "oos" => vec![render(&c["tops"], naming_from_names(&c["names"]))],
@@ -80,7 +97,7 @@ fn main() {
     match args[1].as_str() {
         "probe" => {
             let src = std::fs::read_to_string(&args[2]).unwrap_or_else(|e| tool_error(&format!("{}: {}", args[2], e)));
-            println!("{}", observe(&src));
+            println!("{}", observe(&Project::single(&src)));
             if args.len() > 3 {
                 if let CompileResult::Ok { lua } = vharness::compile(&Project::single(&src)) {
                     println!("{}", vharness::project::body_of(&lua));
@@ -92,7 +109,7 @@ fn main() {
             let n: usize = args[3].parse().unwrap();
             let v: usize = args.get(4).map(|s| s.parse().unwrap()).unwrap_or(0);
             let srcs = sources(&cases[n]);
-            println!("{}", srcs[v.min(srcs.len() - 1)]);
+            println!("{}", text_of(&srcs[v.min(srcs.len() - 1)]));
         }
         "record" => {
             if args.len() < 4 {
@@ -101,7 +118,7 @@ fn main() {
             let cases: Vec<Value> = read_ndjson(Path::new(&args[2]));
             let stub = std::env::var("C09_STUB").unwrap_or_default();
             // one task per (case, variant) so that a skeleton with hundreds of namings is spread over all threads
-            let all_sources: Vec<Vec<String>> = cases.iter().map(sources).collect();
+            let all_sources: Vec<Vec<Project>> = cases.iter().map(sources).collect();
             let tasks: Vec<(usize, usize)> =
                 all_sources.iter().enumerate().flat_map(|(i, s)| (0..s.len()).map(move |j| (i, j))).collect();
             let obs: Vec<Value> = vharness::pool::par_map(&tasks, |_, &(i, j)| observe(&all_sources[i][j]));
@@ -112,7 +129,7 @@ fn main() {
             let mut recs = Vec::new();
             for (i, c) in cases.iter().enumerate() {
                 let o = &mut per_case[i];
-                let srcs = &all_sources[i];
+                let srcs: Vec<String> = all_sources[i].iter().map(text_of).collect();
                 let rec = match c["t"].as_str().unwrap() {
                     "nam" => {
                         if stub == "salt" && o.len() > 1 {
@@ -144,7 +161,7 @@ fn main() {
                         if stub == "accept" {
                             r = json!({"class": "ok", "digest": "stub", "bytes": 1, "stage": "none", "detail": "stub"});
                         }
-                        json!({"t": "oos", "sk": c["sk"], "b": c["b"], "slot": c["slot"], "class": r["class"], "bytes": r["bytes"],
+                        json!({"t": "oos", "sk": c["sk"], "b": c["b"], "slot": c["slot"], "form": c["form"], "class": r["class"], "bytes": r["bytes"],
                                "stage": r["stage"], "detail": r["detail"], "src": srcs[0]})
                     }
                     "gen" => {
